@@ -188,6 +188,8 @@ def do_round(pid, seed, rnd, tier):
                 break
             continue
         out['cases'] += res.get('evals', 1)
+        if isinstance(case, dict) and case.get('knob_logging'):
+            out['probes']['knob_logging_on'] = out['probes'].get('knob_logging_on', 0) + 1
         out['ticks'] += res.get('ticks', 0)
         for k in res.get('nontrivial_keys', ()):
             out['keys_nontrivial'].add(k)
